@@ -3,7 +3,7 @@
 model (extracted oracle) against the real crate (harness), both profiles.
 
 usage: test_mbi_dump.py [--n N] [--seed S] [--keep FILE] [--no-build] [--all]
-  --n N       number of random cases in addition to the hand-written ones (default 600)
+  --n N       number of random cases in addition to the hand-written ones (default 1000)
   --seed S    seed of the random generator (default 1)
   --keep FILE write the case file there (default: .build/test_mbi_dump.cases)
   --all       report every differing case (default: the first one per configuration)
@@ -48,7 +48,7 @@ class Gen:
         """mostly the natural size; otherwise a wrong size field, coherent (payload cut/extended) or not"""
         r = self.r
         x = r.random()
-        if x < 0.72:
+        if x < 0.85:
             return {}
         delta = r.choice([-24, -16, -9, -8, -7, -4, -3, -2, -1, 1, 2, 3, 4, 7, 8, 9, 16, 24, 40])
         size = natural + delta
@@ -144,6 +144,8 @@ class Gen:
             table += e
         x = r.random()
         num = n if x < 0.75 else r.choice([0, n + 1, n + 2, max(n - 1, 0), 0xFFFFFFFF, 0x10000000, 0x06666667])
+        if num * es <= len(table) + 48:
+            num = min(num, 0x10000)         # see hand_cases: unary fuel in the extracted model
         sh = r.randrange(n) if (n and r.random() < 0.75) else r.choice([0, n, n + 1, num, 0xFFFFFFFF])
         if r.random() < 0.15:
             table += self.rb(r.choice([1, 4, 8, 39, 40]))
@@ -331,7 +333,9 @@ def hand_cases():
     add(t_elf(6, 40, 5, b"".join(e64)))
     add(t_elf(4, 48, 0, bytes(192)))
     add(t_elf(4, 0, 0, bytes(16)))
-    add(t_elf(0xFFFFFFFF, 0, 0, bytes(16)))
+    # entry_size 0 with a huge count passes the bounds assertion; the extracted model's fuel is a unary
+    # number of that magnitude (the oracle does not terminate in practice for 0xFFFFFFFF), so a moderate one
+    add(t_elf(0x10000, 0, 0, bytes(16)))
     add(t_elf(0x06666667, 40, 0, b"".join(e32)))              # 32-bit product wraps
     add(t_elf(0xFFFFFFFF, 0xFFFFFFFF, 0, b"".join(e32)))
     add(t_elf(3, 40, 0, b"".join([elf32_entry(0, 0)] * 3)))   # only unused entries
@@ -413,13 +417,28 @@ def hand_cases():
     return c
 
 
+def agree(w, h):
+    """"eq": identical; "ub": the model reports undefined behaviour (a whole-line `UB`: e.g. `load` of a
+    region shorter than its total_size, outside the contract of `load`) and the transcripts are identical
+    before that line -- whatever the crate does from there on (typically CRASH(11) on the guard page) is
+    not comparable; None: a difference"""
+    if w == h:
+        return "eq"
+    if w is None or h is None:
+        return None
+    for i, l in enumerate(w):
+        if l.endswith(" UB") and not l.startswith("vbe_mi "):
+            return "ub" if w[:i] == h[:i] else None
+    return None
+
+
 def show(lines):
     return "\n".join("    " + l for l in (lines if lines is not None else ["<no transcript>"]))
 
 
 def main():
     a = sys.argv[1:]
-    n = int(a[a.index("--n") + 1]) if "--n" in a else 600
+    n = int(a[a.index("--n") + 1]) if "--n" in a else 1000
     seed = int(a[a.index("--seed") + 1]) if "--seed" in a else 1
     keep = a[a.index("--keep") + 1] if "--keep" in a else os.path.join(vlib.BUILD, "test_mbi_dump.cases")
     every = "--all" in a
@@ -449,7 +468,8 @@ def main():
         prof = vlib.CONFIGS[cfg]["prof"]
         want = vlib.run_oracle(keep, prof)
         got = vlib.run_harness(exes[cfg], keep, len(cases))
-        diffs = [i for i in range(len(cases)) if want.get(i) != got.get(i)]
+        verdict = [agree(want.get(i), got.get(i)) for i in range(len(cases))]
+        diffs = [i for i in range(len(cases)) if verdict[i] is None]
         keys = Counter()
         for i in range(len(cases)):
             for l in want.get(i) or []:
@@ -457,7 +477,8 @@ def main():
                 keys[w[0] + (" " + w[1] + " " + w[2] if w[0] == "get" and len(w) > 2 and w[2] != "none" else "")
                      + (" PANIC" if "PANIC" in w else "") + (" UB" if "UB" in l.replace("=", " ").split(" ") else "")
                      + (" ERR" if "ERR" in l.replace("=", " ").split(" ") else "")] += 1
-        print("[%s / oracle %d] %d of %d cases agree" % (cfg, prof, len(cases) - len(diffs), len(cases)))
+        print("[%s / oracle %d] %d of %d cases agree (%d identical, %d model-UB with identical prefix)"
+              % (cfg, prof, len(cases) - len(diffs), len(cases), verdict.count("eq"), verdict.count("ub")))
         if "--stats" in a:
             for k in sorted(keys):
                 print("      %6d  %s" % (keys[k], k))
